@@ -5,7 +5,8 @@
    the example's own output, of the echoed value, or of an expected traceback's final line, xdoctest accepts
    under every flag setting; the standard module itself is used as an executable oracle by the harness. *)
 From XD Require Import Model.Base Model.Ellipsis Model.Checker Model.Text Model.Parser Model.Directive Model.RunLoop
-  Proofs.RunWant Proofs.RunDecide Proofs.CompatProofs Model.StdDoctest Proofs.StdEllipsisProofs.
+  Proofs.RunWant Proofs.RunDecide Proofs.CompatProofs Model.StdDoctest Proofs.StdEllipsisProofs
+  Model.StdOutput Proofs.StdOutputProofs.
 
 Theorem C20_exact_output_accepted : forall fl got want, got = want -> check_output fl got want = true.
 Proof. exact exact_output_accepted. Qed.
@@ -61,3 +62,46 @@ Theorem C20_compat_refuted_F6f :
   std_ellipsis_match f6f_want f6f_got = true /\ check_output default_flags f6f_got f6f_want = false.
 Proof. exact compat_refuted_F6f. Qed.
 Print Assumptions C20_compat_refuted_F6f.
+
+(* ---- the whole comparison of the standard OutputChecker (Model/StdOutput.v: exact, True-for-1, <BLANKLINE> rewriting,
+   NORMALIZE_WHITESPACE, ELLIPSIS) implies check_output in xdoctest's default state.  The want is given by its lines
+   (each the marker, or free of the marker text); Plain = no colour codes, no string-prefix letters in front of quotes,
+   no carriage returns.  Every hypothesis is needed: F6d, F6f, F6g, F6h, F6i below are the witnesses.
+   PARTIAL: the standard side's flag setting ELLIPSIS without NORMALIZE_WHITESPACE is not covered by this statement *)
+Theorem C20_std_output_accepted_partial : forall e n ls got,
+  ls <> [] -> Forall LineOK ls -> Plain got -> Plain (join_nl ls) ->
+  contains BLANKLINE got = false ->
+  true_for_1 (join_nl ls ++ [NL]) got = false ->
+  (e = true -> contains marker (collapse_ws got) = false) ->
+  (e = true -> n = true) ->
+  std_check_output e n (join_nl ls ++ [NL]) got = true ->
+  check_output default_flags got (join_nl ls) = true.
+Proof. exact std_output_accepted_partial. Qed.
+Print Assumptions C20_std_output_accepted_partial.
+
+(* the hypotheses are satisfiable with a marker line and differing blanks, past the identity shortcut *)
+Theorem C20_std_output_hyps_example :
+  demo_want_lines <> [] /\ Forall LineOK demo_want_lines /\ Plain demo_got /\ Plain (join_nl demo_want_lines) /\
+  contains BLANKLINE demo_got = false /\ true_for_1 (join_nl demo_want_lines ++ [NL]) demo_got = false /\
+  std_check_output false false (join_nl demo_want_lines ++ [NL]) demo_got = true /\
+  eqb_str demo_got (join_nl demo_want_lines ++ [NL]) = false.
+Proof. exact demo_std_output_hyps. Qed.
+Print Assumptions C20_std_output_hyps_example.
+
+(* the hypotheses cannot be dropped: the unchanged code is stricter than the standard module on these texts *)
+Theorem C20_compat_refuted_F6d :
+  std_check_output false false (f6d_want ++ [NL]) f6d_got = true /\ check_output default_flags f6d_got f6d_want = false.
+Proof. exact compat_refuted_F6d. Qed.
+Print Assumptions C20_compat_refuted_F6d.
+Theorem C20_compat_refuted_F6g :
+  std_check_output false false (f6g_want ++ [NL]) f6g_got = true /\ check_output default_flags f6g_got f6g_want = false.
+Proof. exact compat_refuted_F6g. Qed.
+Print Assumptions C20_compat_refuted_F6g.
+Theorem C20_compat_refuted_F6h :
+  std_check_output true false (f6h_want ++ [NL]) f6h_got = true /\ check_output default_flags f6h_got f6h_want = false.
+Proof. exact compat_refuted_F6h. Qed.
+Print Assumptions C20_compat_refuted_F6h.
+Theorem C20_compat_refuted_F6i :
+  std_check_output true false (f6i_want ++ [NL]) f6i_got = true /\ check_output default_flags f6i_got f6i_want = false.
+Proof. exact compat_refuted_F6i. Qed.
+Print Assumptions C20_compat_refuted_F6i.
